@@ -44,8 +44,10 @@ def run_case(c, out):
         data = ib.frame_of(c["prices"], idx)
         comm_fn = make_comm(c["comm"])
         ib.PRESET_COMM[0] = comm_fn if c.get("preset_comm") else None
+        ib.SHARED[0] = {} if c.get("share_objects") else None
         root = ib.build_node(c["tree"])
         ib.PRESET_COMM[0] = None
+        ib.SHARED[0] = None
         ad = {}
         for k, a in c.get("adata", []):
             ad[ib.key_of(k)] = ib.adata_of(a, idx)
